@@ -9,7 +9,8 @@ package main
 // with an else branch, become `unrecognised`.
 // Second list `internalizedAdd`: for each of the nine add…ToSpec methods, in source order, every use of a member of
 // doc.Components — (function, "lookup" | "niltest" | "init" | "store", member, "") — and every "#/components/<kind>/" literal —
-// (function, "prefix", text, ""). An indexed Components expression of another shape becomes `unrecognised`.
+// (function, "prefix", text, ""), and the condition of the early return the method starts with — (function, "guard", cond, "").
+// An indexed Components expression of another shape becomes `unrecognised`.
 
 import (
 	"bytes"
@@ -167,6 +168,14 @@ func extractInternalized(repo string) (string, error) {
 			}
 			return true
 		})
+		// the early return: `if x == nil || x.Value == nil || !isExternalRef(x.Ref, parentIsExternal) { return … }`
+		if len(fd.Body.List) > 0 {
+			if is, ok := fd.Body.List[0].(*ast.IfStmt); ok && is.Init == nil && is.Else == nil && len(is.Body.List) == 1 {
+				if _, isRet := is.Body.List[0].(*ast.ReturnStmt); isRet {
+					evs = append(evs, ev{is.Pos(), "guard", src(is.Cond)})
+				}
+			}
+		}
 		sort.SliceStable(evs, func(i, j int) bool { return evs[i].pos < evs[j].pos })
 		for _, e := range evs {
 			if e.kind == "unrecognised" {
